@@ -1,4 +1,5 @@
 import GufoSnmp.Lemmas.AgentWalk
+import GufoSnmp.Lemmas.BulkWalk
 /-!
 # C05 — a walk returns the whole subtree, in order, once
 
@@ -23,6 +24,74 @@ theorem getnext_walk (mib : List (Arcs × Value)) (hm : MibOK mib) (base : Arcs)
   rw [subtree_eq_above]
   have hlen : (above mib base).length ≤ mib.length := List.length_filter_le _ _
   exact agentWalk_above mib hm base hb _ base (freshIter base maxRep) fuel rfl (by omega) hb (Or.inl rfl) rfl rfl
+
+/-- **C05.getbulk_walk**: the same for GetBulk with any `max-repetitions = n ≥ 1`: composed with any
+agent that answers a request naming `encA o` with the RFC 3416 §4.2.3 response for `o` (the next `n`
+entries, padded with endOfMibView once the MIB is exhausted), the GetBulk iterator yields exactly
+the entries strictly below the base, in MIB order, each once, and then stops — for every finite
+sorted MIB, every base and every `n` -/
+theorem getbulk_walk (mib : List (Arcs × Value)) (hm : MibOK mib) (base : Arcs) (hb : ValidOid base)
+    (n : Nat) (hn : 1 ≤ n) (agent : Bytes → List VarBind)
+    (ha : ∀ o, ValidOid o → agent (encA o) = bulkResp mib o n)
+    (maxRep : Int) (fuel : Nat) (hf : mib.length < fuel) :
+    bulkWalk agent (freshIter base maxRep) fuel = (subtree base mib).map itemOf := by
+  rw [subtree_eq_above]
+  have hlen : (above mib base).length ≤ mib.length := List.length_filter_le _ _
+  exact bulkWalk_above mib hm base hb n hn agent ha _ base (freshIter base maxRep) fuel rfl (by omega) hb
+    (Or.inl rfl) rfl rfl
+
+theorem arcsLt_tri : ∀ (a b : Arcs), a = b ∨ arcsLt a b = true ∨ arcsLt b a = true
+  | [], [] => Or.inl rfl
+  | [], _ :: _ => Or.inr (Or.inl rfl)
+  | _ :: _, [] => Or.inr (Or.inr rfl)
+  | x :: xs, y :: ys => by
+    by_cases h1 : x < y
+    · exact Or.inr (Or.inl (by rw [arcsLt, if_pos h1]))
+    · by_cases h2 : y < x
+      · exact Or.inr (Or.inr (by rw [arcsLt, if_pos h2]))
+      · have : x = y := by omega
+        subst this
+        have step : ∀ (p q : Arcs), arcsLt (x :: p) (x :: q) = arcsLt p q := by
+          intro p q; rw [arcsLt, if_neg h1, if_neg h1]
+        rcases arcsLt_tri xs ys with rfl | h | h
+        · exact Or.inl rfl
+        · exact Or.inr (Or.inl (by rw [step]; exact h))
+        · exact Or.inr (Or.inr (by rw [step]; exact h))
+
+/-- the encoding of valid OIDs is injective, so an agent may be given as a function of the encoded name -/
+theorem encA_inj (a b : Arcs) (ha : ValidOid a) (hb : ValidOid b) (h : encA a = encA b) : a = b := by
+  rcases arcsLt_tri a b with rfl | hlt | hlt
+  · rfl
+  · obtain ⟨a0, a1, r, rfl, h0, h1, _⟩ := ha
+    obtain ⟨b0, b1, s, rfl, g0, g1, _⟩ := hb
+    have := cmpArcs_enc a0 a1 r b0 b1 s ⟨h0, h1⟩ ⟨g0, g1⟩ hlt
+    simp only [encA] at h
+    rw [h] at this
+    exact absurd this (cmpArcs_irrefl _)
+  · obtain ⟨a0, a1, r, rfl, h0, h1, _⟩ := ha
+    obtain ⟨b0, b1, s, rfl, g0, g1, _⟩ := hb
+    have := cmpArcs_enc b0 b1 s a0 a1 r ⟨g0, g1⟩ ⟨h0, h1⟩ hlt
+    simp only [encA] at h
+    rw [h] at this
+    exact absurd this (cmpArcs_irrefl _)
+
+/-- the hypothesis of `getbulk_walk` is satisfiable for every MIB and every `n` -/
+theorem agent_exists (mib : List (Arcs × Value)) (n : Nat) :
+    ∃ agent : Bytes → List VarBind, ∀ o, ValidOid o → agent (encA o) = bulkResp mib o n := by
+  classical
+  refine ⟨fun b => if h : ∃ o, ValidOid o ∧ encA o = b then bulkResp mib (Classical.choose h) n else [], ?_⟩
+  intro o ho
+  have h : ∃ o', ValidOid o' ∧ encA o' = encA o := ⟨o, ho, rfl⟩
+  simp only [dif_pos h]
+  have hs := Classical.choose_spec h
+  rw [encA_inj _ _ hs.1 ho hs.2]
+
+/-- GetBulk and GetNext walks agree (both are the subtree) -/
+theorem bulk_eq_next (mib : List (Arcs × Value)) (hm : MibOK mib) (base : Arcs) (hb : ValidOid base)
+    (n : Nat) (hn : 1 ≤ n) (agent : Bytes → List VarBind)
+    (ha : ∀ o, ValidOid o → agent (encA o) = bulkResp mib o n) (m1 m2 : Int) (fuel : Nat) (hf : mib.length < fuel) :
+    bulkWalk agent (freshIter base m1) fuel = agentWalk mib base (freshIter base m2) fuel := by
+  rw [getbulk_walk mib hm base hb n hn agent ha m1 fuel hf, getnext_walk mib hm base hb m2 fuel hf]
 
 /-- the fresh iterator is what `GetIter(oid)` builds from the canonical text of the base -/
 theorem freshIter_new (a0 a1 : Nat) (r : List Nat) (h0 : a0 ≤ 2) (h1 : a1 ≤ 39) (hr : ∀ x ∈ r, x < 2 ^ 32)
